@@ -109,6 +109,16 @@ func (vfs *BasePathFS) FromLinkError(err error) error {
 	return &os.LinkError{Op: e.Op, Old: vfs.fromErrorPath(e.Old), New: vfs.fromErrorPath(e.New), Err: e.Err}
 }
 
+// errRootDir returns the error of an operation that can't be applied to the root directory,
+// the one a MemFS reports for its own root directory.
+func (vfs *BasePathFS) errRootDir() error {
+	var e avfs.Errors
+
+	e.SetOSType(vfs.OSType())
+
+	return e.InvalidArgument
+}
+
 // ToBasePath transforms a BasePathFS path to an internal path.
 // When the base path is "/base/path", ToBasePath("/tmp") returns "/base/path/tmp".
 func (vfs *BasePathFS) ToBasePath(path string) string {
